@@ -349,6 +349,20 @@ def marathon_drive(runs=(25, 800)):
 for _p in ("C01", "C07", "C08", "C09"):
     PLANS[_p]["drive"] = PLANS[_p]["drive"] + [marathon_drive()]
 
+# ten validators: plans that spread one payment or one undelegation over many validators (and anything capped or
+# ordered by validator count); two-digit validator ids
+MENU_MANY = menu(MENU_HUB, items={"add_validator": 1, "remove_validator": 2, "slash": 3, "accrue": 2, "ugi": 2, "set_ext": 0, "from_b": 0, "from_st": 0, "allow_b": 0, "allow_st": 0},
+                 amax=400, vary={"fee": [[0, 5000000, 0], [0, 0, 0]], "thr": [[1, 0, 0]], "keeper_rate": [[0, 50000000, 0]], "periods": [[2, 5]],
+                                 "init_vals": [[1, 2, 3, 4, 5, 6, 7, 8, 9, 10], [1, 2, 3, 4, 5, 6, 7, 8, 9], [2, 3, 4, 5, 6, 7, 8, 9, 10, 11, 12]]})
+
+
+def many_drive(runs=(20, 500)):
+    return dict(name="hubflow-many", menu=MENU_MANY, runs=runs, len=40, consts=dict(MaxBatch=8, NV=12, InitVals=[1, 2, 3, 4, 5, 6, 7, 8, 9, 10]))
+
+
+for _p in ("C02", "C04", "C13"):
+    PLANS[_p]["drive"] = PLANS[_p]["drive"] + [many_drive()]
+
 # the airdrop flow (ClaimAirdrop -> airdrop contract -> SwapHook -> token Send -> pair -> reward contract), with stub airdrop contracts
 AIRDROP_ITEMS = {"set_airdrop": 3, "airdrop_cfg": 2, "airdrop_claim": 4, "airdrop_fab": 3, "ugi_hooks": 4, "index_update": 2, "claim": 2}
 PLANS["C19"]["mc"].append(hf_mc("airdrop", extra=dict(Features=["core", "reward", "airdrop"], Amts=[10], RewardAmts=[40, 100], Dts=[3]), depth=(3, 4)))
